@@ -54,7 +54,9 @@ pub fn tree_hash(pat: &str) -> i64 {
     match catch_unwind(|| fancy_regex::Expr::parse_tree(pat)) {
         Ok(Ok(tree)) => {
             let mut h = std::collections::hash_map::DefaultHasher::new();
-            format!("{:?}", tree.expr).hash(&mut h);
+            // the expression and the set of referenced groups (ExprTree::backrefs decides what the analysis calls hard);
+            // the named-group map is left out: it legitimately differs between named and numbered spellings
+            format!("{:?}|{:?}", tree.expr, tree.backrefs.iter().collect::<Vec<usize>>()).hash(&mut h);
             (h.finish() & 0x7fff_ffff) as i64
         }
         _ => -1,
